@@ -152,6 +152,7 @@ ADAPTORS = [
     (r'^Parameters_write', _scenario('data_start_block')),
     (r'^Header_write$', _scenario('header_write_label')),
     (r'^c3d_updateHeader$', _scenario('header_frames_after_declare')),
+    (r'^c3d_parameter$', _scenario('param_untyped_creates_group')),
 ]
 
 
